@@ -15,6 +15,7 @@ fn main() {
         "fi-record" => vh::fam_fi::record(&args),
         "cm-record" => vh::fam_cm::record(&args),
         "bloom-record" => vh::fam_bloom::record(&args),
+        "cpc-record" => vh::fam_cpc::record(&args),
         "hllu-record" => vh::fam_hll::record_union(&args),
         c => {
             eprintln!("unknown command {c}");
